@@ -1079,6 +1079,7 @@ func TestC18(t *testing.T) {
 	h.RunProp(t, rtProp, h.N(60000, 700000))
 	h.RunProp(t, pathsGrid, 0)
 	h.RunProp(t, pathsProp, h.N(60000, 500000))
+	testRootStyle(t)
 	h.RunProp(t, bridgeGrid, 0)
 	h.RunProp(t, bridgeProp, h.N(30000, 300000))
 	if h.C.Shard != 0 {
